@@ -52,6 +52,7 @@ struct W<'a, 'b> {
     layout: bool,
     block_scalars: u32,
     empty_nulls: u32,
+    ascii_json: bool,
 }
 
 const KEYWORDS: [&str; 11] = ["y", "n", "yes", "no", "on", "off", "true", "false", "null", "~", ""];
@@ -98,6 +99,22 @@ impl<'a, 'b> W<'a, 'b> {
     fn json_string(&mut self, s: &str) {
         let mut t = String::new();
         crate::val::write_json_str(&mut t, s);
+        if self.ascii_json {
+            // what ASCII-only JSON writers emit (Python's json.dumps by default): \uXXXX for every
+            // non-ASCII character, a surrogate pair beyond the basic plane
+            let mut a = String::new();
+            for c in t.chars() {
+                if (c as u32) < 0x7f {
+                    a.push(c);
+                } else {
+                    let mut b = [0u16; 2];
+                    for unit in c.encode_utf16(&mut b) {
+                        a.push_str(&format!("\\u{:04x}", unit));
+                    }
+                }
+            }
+            t = a;
+        }
         self.put(&t);
     }
     fn yaml_dq(&mut self, s: &str) {
@@ -394,13 +411,15 @@ fn lead(w: &mut W, spaces: bool) {
 }
 
 pub fn write_doc(v: &V, style: Style, u: &mut Choices, layout: bool) -> Written {
-    let mut w = W { u, out: String::new(), line: 0, col: 0, pos: BTreeMap::new(), plain: 0, quoted: 0, layout, block_scalars: 0, empty_nulls: 0 };
+    let mut w = W { u, out: String::new(), line: 0, col: 0, pos: BTreeMap::new(), plain: 0, quoted: 0, layout, block_scalars: 0, empty_nulls: 0, ascii_json: false };
     match style {
         Style::JsonCompact => {
+            w.ascii_json = layout && w.u.chance(1, 3);
             lead(&mut w, true);
             w.json(v, "", false, 0, 0)
         }
         Style::JsonPretty => {
+            w.ascii_json = layout && w.u.chance(1, 3);
             lead(&mut w, true);
             let unit = [2usize, 4, 1, 3][w.u.below(4)];
             w.json(v, "", true, unit, 0)
